@@ -87,7 +87,13 @@ class Gen:
     # ---------------------------------------------------------------- helpers
     def name(self, base):
         self.uid += 1
-        return f"{base}{self.uid}"
+        if base == "fn" and self.opts.get("dup_names") and getattr(self, "_fn_names", None) and self.r.random() < 0.15:
+            self.features.add("duplicate-name")          # two functions / methods of one file share a name
+            return self.r.choice(self._fn_names)
+        nm = f"{base}{self.uid}"
+        if base == "fn":
+            self.__dict__.setdefault("_fn_names", []).append(nm)
+        return nm
 
     def maybe_comment_lines(self, indent):
         if not self.opts["comments"]:
@@ -336,7 +342,10 @@ class Gen:
     def ctrl(self, indent, owners, depth):
         self.maybe_comment_lines(indent)
         self.o.ws(indent)
-        kw = self.r.choice(["if (x > 0)", "while (x)", "for (i = 0; i < n; i++)", "if (call(x))"])
+        kw = self.r.choice(["if (x > 0)", "while (x)", "for (i = 0; i < n; i++)", "if (call(x))",
+                            "if (c ? pick(1) : other)", "while (a ? f() : g())", "if (ok && (c ? first(a, b) : second))"])
+        if "?" in kw:
+            self.features.add("ternary-call-in-condition")     # a call followed by ": name )" and then a brace (GD26)
         self.o.code(kw, owners)
         self.open_brace(owners, indent)
         self.o.nl()
